@@ -34,9 +34,6 @@ class check_namespace_collisions:
     }
 
 
-def same_tables(t):
-    return t._node_labels == old(t._node_labels) and t._edge_labels == old(t._edge_labels)
-
 
 def nts_of(t):
     return [el for el in vals_seq(t._edge_labels) if el.is_nonterminal]
